@@ -229,18 +229,33 @@ def main():
             res.violate("split", bad, {"hdr": vals, "body_len": n}, None, [show_block(b)[:60] for b in blocks][:4])
     hlib.compare_batch(res, drv, "SecsIMessage._split_blocks vs Model.SecsI.split", cases, lines, answers)
 
-    if big:
-        # the 32767-block limit, oracle only on the implementation + model through the driver
-        n = 244 * 32767
+    # the 32767-block limit (E4: 15-bit block number): oracle on the implementation in every tier, model through the driver in thorough
+    for n in (244 * 32767, 244 * 32766 + 1, 244 * 32766):
         vals = gen_header(rng)
         body = rng.bytes(n)
-        blocks = SecsIMessage(mk_header(vals), body).blocks
+        want_n = -(-n // 244)
+        try:
+            blocks = SecsIMessage(mk_header(vals), body).blocks
+        except Exception as exc:  # noqa: BLE001
+            res.violate("split", f"a body of {n} bytes ({want_n} blocks, within the 32767-block limit) cannot be split: {hlib.errkind(exc)}",
+                        {"hdr": vals, "body_len": n})
+            continue
         res.count(("split-max", n), sample={"op": "split", "body_len": n, "blocks": len(blocks)})
-        if len(blocks) != 32767 or b"".join(b.data for b in blocks) != body or blocks[-1].header.block != 32767 or not blocks[-1].header.last_block:
-            res.violate("split", "32767-block body not split correctly", {"hdr": vals, "body_len": n})
-        hlib.compare_batch(res, drv, "split at the 32767-block limit", [{"len": n}],
-                           ["secsi split " + " ".join(str(v) for v in vals) + " " + hexs(body)],
-                           ["ok " + ";".join(show_block(b) for b in blocks)])
+        if len(blocks) != want_n or b"".join(b.data for b in blocks) != body or blocks[-1].header.block != want_n or not blocks[-1].header.last_block \
+                or any(b.header.last_block for b in blocks[:-1]) or blocks[0].header.block != 1:
+            res.violate("split", f"{want_n}-block body not split correctly", {"hdr": vals, "body_len": n})
+        else:
+            try:
+                raw = blocks[-1].encode()
+                back = SecsIBlock.decode(raw)
+                if back is None or back.header.block != want_n or not back.header.last_block or bytes(back.data) != bytes(blocks[-1].data):
+                    res.violate("block-roundtrip", f"the last block (number {want_n}) of a {want_n}-block message does not survive encode/decode", {"hdr": vals, "body_len": n})
+            except Exception as exc:  # noqa: BLE001
+                res.violate("block-roundtrip", f"the last block (number {want_n}) cannot be encoded/decoded: {hlib.errkind(exc)}", {"hdr": vals, "body_len": n})
+        if big and n == 244 * 32767:
+            hlib.compare_batch(res, drv, "split at the 32767-block limit", [{"len": n}],
+                               ["secsi split " + " ".join(str(v) for v in vals) + " " + hexs(body)],
+                               ["ok " + ";".join(show_block(b) for b in blocks)])
 
     # ------------------------------------------------------------ glue: the byte queue the SECS-I receive path reads blocks from
     # `SecsIProtocol._process_received_data` takes a block with `ByteQueue.wait_for(length + 3)`: whatever the chunking of the line,
